@@ -3,13 +3,13 @@
 # property text in /tmp/seed-Cnn-prop.json (nothing from /verif besides the given property record)
 set -eu
 p=$1
-d=/tmp/seed-$p
+d=/tmp/seed${SEEDTAG:-}-$p
 git -C /repo worktree remove --force $d 2>/dev/null || true
 rm -rf $d
 git -C /repo worktree add --detach $d HEAD >/dev/null 2>&1
 # the contract files are removed by a commit on the worktree's detached HEAD (never on a branch of /repo),
 # so `git checkout -- .` inside the worktree does not bring them back and patches stay clean
 (cd $d && find . -name 'zz_contracts_verif.go' -print0 | xargs -0 git rm -q && git -c user.name=seed -c user.email=seed@x commit -qm "scratch: without contract files")
-grep "\"id\": *\"$p\"" /verif/properties.jsonl | python3 -m json.tool > /tmp/seed-$p-prop.json
+grep "\"id\": *\"$p\"" /verif/properties.jsonl | python3 -m json.tool > /tmp/seed${SEEDTAG:-}-$p-prop.json
 mkdir -p $d/out
 echo $d
